@@ -23,6 +23,7 @@ CONSTANTS
   Acts,        \* enabled action families, subset of ActNames
   ObsKinds,    \* which read APIs are rendered into Obs
   Limits,      \* page limits used by Obs (0 = unlimited)
+  Precreated,  \* TRUE iff the configuration starts from InitCreated (told to the harness in the header)
   Fan,         \* successors kept per state by NextSample (sampled deep exploration)
   Readers      \* reader ids (token-carrying feed readers), each [ds, lo, lim]
 
@@ -217,7 +218,8 @@ GC ==
 \* stop + start at a quiescent point: unobservable (C14)
 Restart ==
   /\ "restart" \in Acts
-  /\ hist = <<>> \/ hist[Len(hist)].a # "restart"
+  /\ hist # <<>>
+  /\ IF hist = <<>> THEN FALSE ELSE hist[Len(hist)].a # "restart"
   /\ Log([a |-> "restart"])
   /\ UNCHANGED <<clock, dsInc, nextInc, deletedInc, purgedInc, feed, nextPos,
                  everStored, metaOf, rd>>
@@ -305,23 +307,35 @@ SpecCreated == InitCreated /\ [][Next]_vars
 \* action instances (TLC's RandomElement; reproducible with -seed).  The filter
 \* sits inside Next, so only kept successors are generated and emitted.
 RE(S) == {RandomElement(IF Steps >= 0 THEN S ELSE {})}   \* state-level on purpose: no constant folding
+DeadNames == DsName \ LiveNames
+KindsNow ==
+  { k \in Acts :
+      \/ k \in {"store", "delete", "compact", "dup"} /\ LiveNames # {}
+      \/ k = "txn" /\ Cardinality(LiveNames) >= 2
+      \/ k = "create" /\ DeadNames # {} /\ nextInc <= MaxInc
+      \/ k = "rename" /\ LiveNames # {} /\ DeadNames # {}
+      \/ k = "tick"
+      \/ k = "read" /\ Readers # {}
+      \/ k = "gc" /\ purgedInc # deletedInc
+      \/ k = "restart" /\ hist # <<>> }
 NextSample ==
   /\ Steps < MaxSteps
-  /\ \E k \in 1..Fan :
-      \E kind \in RE(Acts \ {"gc", "restart"}) :
-        \/ kind = "store" /\ \E n \in RE(DsName), b \in RE(Batches) : StoreBatch(n, b)
-        \/ kind = "txn" /\ \E n1 \in RE(DsName), n2 \in RE(DsName), x1 \in RE(Ent \X CId), x2 \in RE(Ent \X CId) :
-                             ExecTxn(n1, x1, n2, x2)
+  /\ KindsNow # {}
+  /\ \E j \in 1..Fan :
+      \E kind \in RE(KindsNow) :
+        \/ kind = "store" /\ \E n \in RE(LiveNames), b \in RE(Batches) : StoreBatch(n, b)
+        \/ kind = "txn" /\ \E n1 \in RE(LiveNames) : \E n2 \in RE(LiveNames \ {n1}) :
+                             \E x1 \in RE(Ent \X CId), x2 \in RE(Ent \X CId) :
+                               IF DsIdx(n1) < DsIdx(n2) THEN ExecTxn(n1, x1, n2, x2) ELSE ExecTxn(n2, x2, n1, x1)
         \/ kind = "tick" /\ Tick
-        \/ kind = "create" /\ \E n \in RE(DsName) : CreateDs(n)
-        \/ kind = "delete" /\ \E n \in RE(DsName) : DeleteDs(n)
-        \/ kind = "compact" /\ \E n \in RE(DsName) : Compact(n)
-        \/ kind = "rename" /\ \E n \in RE(DsName), m \in RE(DsName) : RenameDs(n, m)
-        \/ kind = "dup" /\ \E n \in RE(DsName), e \in RE(Ent) : InjectDup(n, e)
-        \/ kind = "read" /\ Readers # {} /\ \E r \in RE(Readers) : ReadPage(r)
-        \/ kind \in {"gc", "restart"} /\ FALSE
-  \/ (Steps < MaxSteps /\ "gc" \in Acts /\ RandomElement(1..4) = 1 /\ GC)
-  \/ (Steps < MaxSteps /\ "restart" \in Acts /\ RandomElement(1..4) = 1 /\ Restart)
+        \/ kind = "create" /\ \E n \in RE(DeadNames) : CreateDs(n)
+        \/ kind = "delete" /\ \E n \in RE(LiveNames) : DeleteDs(n)
+        \/ kind = "compact" /\ \E n \in RE(LiveNames) : Compact(n)
+        \/ kind = "rename" /\ \E n \in RE(LiveNames), m \in RE(DeadNames) : RenameDs(n, m)
+        \/ kind = "dup" /\ \E n \in RE(LiveNames), e \in RE(Ent) : InjectDup(n, e)
+        \/ kind = "read" /\ \E r \in RE(Readers) : ReadPage(r)
+        \/ kind = "gc" /\ GC
+        \/ kind = "restart" /\ Restart
 SpecSample == Init /\ [][NextSample]_vars
 SpecCreatedSample == InitCreated /\ [][NextSample]_vars
 
@@ -475,6 +489,6 @@ Emit == PrintT(<<"TRACE", ToJson([steps |-> hist, obs |-> Obs])>>)
 Header ==
   [ds |-> SetToSeq2(DsName), ent |-> SetToSeq2(Ent), pred |-> SetToSeq2(Pred),
    contents |-> ContentSeq, limits |-> SetToSeq2(Limits),
-   kinds |-> SetToSeq2(ObsKinds), acts |-> SetToSeq2(Acts)]
+   kinds |-> SetToSeq2(ObsKinds), acts |-> SetToSeq2(Acts), precreated |-> Precreated]
 EmitHeader == PrintT(<<"HEADER", ToJson(Header)>>)
 =============================================================================
